@@ -6,7 +6,10 @@ A *case* is {"cfg": ..., "kind": ..., ...}.  The record of a simulate() call is
 Events are the phase hook's events (PDESY_VERIF=1), each with the complete projected
 state, so trace validation never has to guess a variable."""
 import copy
+import os as _os0
 import warnings
+
+_os_environ_get = _os0.environ.get
 
 from .build import Model, RankedTask, TRULE
 from .observe import Projector
@@ -41,20 +44,44 @@ class Recorder:
                 raise Abort("%s@%d" % self.abort_at)
 
 
+class CallTimeout(BaseException):
+    """An API call of the library did not return within CALL_TIMEOUT_S (e.g. a dependency cycle
+    makes the PERT wave propagation loop for ever): recorded as ret = "timeout"."""
+
+
+CALL_TIMEOUT_S = float(_os_environ_get("VERIF_CALL_TIMEOUT", "30"))
+
+
+def _on_alarm(signum, frame):
+    raise CallTimeout()
+
+
 def call_recorded(model, fn, abort_at=None, light=False):
     """Run fn() with an observer installed; returns (events, ret)."""
+    import signal
+    import threading
+
     rec = Recorder(model, abort_at=abort_at, light=light)
     model.project._verif_observer = rec
     ret = "ok"
+    timed = threading.current_thread() is threading.main_thread()
+    if timed:
+        old = signal.signal(signal.SIGALRM, _on_alarm)
+        signal.setitimer(signal.ITIMER_REAL, CALL_TIMEOUT_S)
     try:
         with warnings.catch_warnings():
             warnings.simplefilter("ignore")
             fn()
     except Abort:
         ret = "abort"
+    except CallTimeout:
+        ret = "timeout"
     except Exception as e:  # a crash of the library is an observation, judged by TLC
         ret = "exc:" + type(e).__name__
     finally:
+        if timed:
+            signal.setitimer(signal.ITIMER_REAL, 0)
+            signal.signal(signal.SIGALRM, old)
         model.project._verif_observer = None
     return rec.ev, ret
 
@@ -258,6 +285,31 @@ def run_history(spec):
             m = Model(cfg, plain=bool(op.get("plain", plain)))   # (of the possibly edited cfg)
         elif kind == "snapshot":
             pass
+        elif kind == "add_worker_task":
+            # the user extends the model between two runs: a new task and, in the last team, a new
+            # worker who is the only one skilled for it
+            cfg = _json.loads(_json.dumps(cfg))
+            Q = cfg["Q"]
+            nt, nw = len(cfg["tasks"]) + 1, len(cfg["workers"]) + 1
+            from . import gen as _gen
+            tc = _gen.task(work=2 * Q, teams=[cfg["nTeam"]], rank=max(t["rank"] for t in cfg["tasks"]) + 1, Q=Q)
+            cfg["tasks"].append(tc)
+            for w in cfg["workers"]:
+                w["skill"].append(-1)
+            for f in cfg["facs"]:
+                f["skill"].append(-1)
+            wc = _gen.worker(team=cfg["nTeam"], skill=[-1] * (nt - 1) + [Q], fskill=[-1] * len(cfg["facs"]), cost=1)
+            cfg["workers"].append(wc)
+            m.cfg = cfg
+            task = m.make_task(nt, tc)
+            m.project.workflow.append_child_task(task)
+            m.tasks.append(task)
+            wk = m.make_worker(nw, wc)
+            m.teams[-1].add_worker(wk)
+            m.teams[-1].append_targeted_task(task)
+            m.workers.append(wk)
+            m.reindex()
+            changed_cfg = True
         elif kind == "add_dep":
             # the user edits the workflow between two runs: a new dependency pred -> succ
             pr, su, kd = op["dep"]
@@ -319,6 +371,8 @@ def run_history(spec):
         if changed_cfg:
             rec["cfg"] = cfg
         runs.append(rec)
+        if rec["ret"] == "timeout":
+            break      # the model is in an arbitrary state; later operations would only hang again
     if tmp is not None:
         import shutil
         shutil.rmtree(tmp, ignore_errors=True)
@@ -398,6 +452,29 @@ def run_subproject(spec):
                         "childAbs": csnap["lg"]["absL"], "su": spec["su"], "pu": spec["pu"]},
                 "final": csnap}
         runs.append(rec1)
+        # a second task configured from the same, unchanged file with the other setting of the flag
+        st2 = BaseSubProjectTask("other")
+        ret2 = "ok"
+        with warnings.catch_warnings(record=True) as wlist2:
+            warnings.simplefilter("always")
+            try:
+                st2.set_all_attributes_from_json(file_path=path, remove_absence_time_list=not bool(spec["flag"]))
+            except Exception as e:
+                ret2 = "exc:" + type(e).__name__
+        D2 = st2.default_work_amount
+        try:
+            usec2 = int(st2.unit_timedelta.total_seconds())
+        except Exception:
+            usec2 = -1
+        cfg2 = csnap["lg"]["status"] == "SUCCESS"
+        rec2 = _json.loads(_json.dumps(rec1))
+        rec2["args"]["flag"] = not bool(spec["flag"])
+        rec2["ret"] = ret2
+        rec2["obs"].update({"warned": len(wlist2) > 0, "unchanged": (not cfg2) and D2 == 10.0,
+                            "D": int(D2) if float(D2).is_integer() else -1, "unitS": usec2})
+        if cfg2:
+            rec2["obs"]["unchanged"] = False if D2 != 10.0 or usec2 != 60 else rec2["obs"]["unchanged"]
+        runs.append(rec2)
         if configured and ret == "ok":
             pm.project.unit_timedelta = pu
             st.set_work_amount_progress_of_unit_step_time(pm.project.unit_timedelta)
